@@ -170,6 +170,14 @@ pub fn small_seeds() -> Vec<Seed> {
         s.name = "crate-written".into();
         v.push(s);
     }
+    // larger AES entries (many cipher blocks; reads of >= 128 bytes after an unaligned read become possible)
+    for (ae2, tag) in [(false, "ae1"), (true, "ae2")] {
+        let mut a = EntrySpec::simple(b"aes-stored-big", 0, Content::Rand { seed: 60, len: 700 });
+        a.enc = aes(b"helloworld", 3, ae2);
+        let mut b = EntrySpec::simple(b"aes-deflate-big", 8, text(61, 2500));
+        b.enc = aes(b"helloworld", 1, ae2);
+        v.push(from_spec(&format!("ref-aes-big-{tag}"), &ArchiveSpec::plain(vec![a, b])));
+    }
     v
 }
 
